@@ -8,6 +8,7 @@ import (
 	"github.com/ChrisTrenkamp/xsel/grammar/parser/bsr"
 	"github.com/ChrisTrenkamp/xsel/grammar/parser/symbols"
 	"github.com/ChrisTrenkamp/xsel/node"
+	"github.com/ChrisTrenkamp/xsel/store"
 )
 
 var errQueryNonNodeset = fmt.Errorf("cannot query nodes on non-NodeSet's")
@@ -86,6 +87,7 @@ func execStep(context *exprContext, expr *grammar.Grammar) error {
 		}
 
 		context.result = selectChild(nodeSet)
+		context.principalKind = elementKind
 	}
 
 	return execContext(context, expr.Next(nextBsr))
@@ -204,17 +206,29 @@ func execNameTestAnyElement(context *exprContext, expr *grammar.Grammar) error {
 	result := make(NodeSet, 0)
 
 	for _, i := range nodeSet {
-		if _, ok := i.Node().(node.NamedNode); ok {
-			result = append(result, i)
-		}
-
-		if _, ok := i.Node().(node.Namespace); ok {
+		if isPrincipalNodeType(context, i) {
 			result = append(result, i)
 		}
 	}
 
 	context.result = result
 	return nil
+}
+
+// A name test only selects nodes of the principal node type of the step's
+// axis: attributes on the attribute axis, namespaces on the namespace axis,
+// and elements on every other axis.
+func isPrincipalNodeType(context *exprContext, cursor store.Cursor) bool {
+	switch cursor.Node().(type) {
+	case node.Namespace:
+		return context.principalKind == namespaceKind
+	case node.Attribute:
+		return context.principalKind == attributeKind
+	case node.Element:
+		return context.principalKind == elementKind
+	}
+
+	return false
 }
 
 func execNameTestNamespaceAnyLocal(context *exprContext, expr *grammar.Grammar) error {
@@ -252,7 +266,7 @@ func nameTestNamespaceAnyLocal(namespaceLookup string, context *exprContext, exp
 	result := make(NodeSet, 0)
 
 	for _, i := range nodeSet {
-		if node, ok := i.Node().(node.NamedNode); ok {
+		if node, ok := i.Node().(node.NamedNode); ok && isPrincipalNodeType(context, i) {
 			if node.Space() == namespaceValue {
 				result = append(result, i)
 			}
@@ -293,7 +307,7 @@ func nameTestLocalAnyNamespace(localValue string, context *exprContext, expr *gr
 	result := make(NodeSet, 0)
 
 	for _, i := range nodeSet {
-		if node, ok := i.Node().(node.NamedNode); ok {
+		if node, ok := i.Node().(node.NamedNode); ok && isPrincipalNodeType(context, i) {
 			if node.Local() == localValue {
 				result = append(result, i)
 			}
@@ -372,7 +386,7 @@ func nameTestQNameNamespaceWithLocal(namespaceLookup, local string, context *exp
 	result := make(NodeSet, 0)
 
 	for _, i := range nodeSet {
-		if node, ok := i.Node().(node.NamedNode); ok {
+		if node, ok := i.Node().(node.NamedNode); ok && isPrincipalNodeType(context, i) {
 			if node.Local() == local && node.Space() == namespaceValue {
 				result = append(result, i)
 			}
@@ -394,13 +408,13 @@ func execNameTestQNameLocalOnly(context *exprContext, expr *grammar.Grammar) err
 	queryName := expr.GetString()
 
 	for _, child := range nodeSet {
-		if elem, ok := child.Node().(node.NamedNode); ok {
+		if elem, ok := child.Node().(node.NamedNode); ok && isPrincipalNodeType(context, child) {
 			if elem.Space() == "" && elem.Local() == queryName {
 				nextResult = append(nextResult, child)
 			}
 		}
 
-		if ns, ok := child.Node().(node.Namespace); ok {
+		if ns, ok := child.Node().(node.Namespace); ok && isPrincipalNodeType(context, child) {
 			namespaceValue := context.NamespaceDecls[queryName]
 
 			if ns.NamespaceValue() == namespaceValue {
@@ -423,12 +437,14 @@ func execAxisName(context *exprContext, expr *grammar.Grammar) error {
 
 	axis := expr.GetString()
 	var result Result
+	context.principalKind = elementKind
 
 	switch axis {
 	case "child":
 		result = selectChild(nodeSet)
 	case "attribute":
 		result = selectAttributes(nodeSet)
+		context.principalKind = attributeKind
 	case "ancestor":
 		result = selectAncestor(nodeSet)
 	case "ancestor-or-self":
@@ -443,6 +459,7 @@ func execAxisName(context *exprContext, expr *grammar.Grammar) error {
 		result = selectFollowingSibling(nodeSet)
 	case "namespace":
 		result = selectNamespace(nodeSet)
+		context.principalKind = namespaceKind
 	case "parent":
 		result = selectParent(nodeSet)
 	case "preceding":
@@ -477,6 +494,7 @@ func execAbbreviatedAxisSpecifier(context *exprContext, expr *grammar.Grammar) e
 	}
 
 	context.result = selectAttributes(nodeSet)
+	context.principalKind = attributeKind
 	return nil
 }
 
